@@ -20,6 +20,18 @@ def projects(tier, seed):
             "src/sub/c.rs": b'fn c() {\n    log::info!("[ref: 4] four");\n}\n'}
     ps.append(fault.Project(full, label="t_complete"))
     ps.append(fault.Project(dict(full), lock=core.lock_text(5), label="t_complete_lock"))
+    # fully referenced trees that also hold files which cannot be read as text (first, in the middle, last in walk order): an
+    # interrupted --check must not pass there either, and the stop request must be seen while such a file is in hand
+    unread = dict(full)
+    unread["src/aa_first_unreadable.rs"] = b'fn u() { info!("caf\xe9"); }\n'
+    unread["src/m_unreadable.rs"] = b'\xff\xfe\x00broken'
+    unread["src/zz/zz_last_unreadable.rs"] = b'fn z() { info!("\xc3("); }\n'
+    ps.append(fault.Project(unread, label="t_complete_with_unreadable"))
+    mixed = {"src/a.rs": b'fn a() {\n    info!("needs one");\n}\n', "src/b_unreadable.rs": b'fn u() { info!("caf\xe9"); }\n',
+             "src/c.rs": b'fn c() {\n    warn!("needs one too");\n}\n', "src/zz_unreadable.rs": b'\xff\xfe'}
+    ps.append(fault.Project(mixed, label="t_missing_with_unreadable"))
+    # a source file of a few hundred KB (read, parsed and written in several steps)
+    ps.append(fault.small_project(rnd, nfiles=2, stmts=(1, 2), big=300000, label="t_big300k"))
     if tier == "thorough":
         ps.append(fault.small_project(rnd, nfiles=6, stmts=(1, 4), label="t3"))
         ps.append(fault.small_project(rnd, nfiles=2, stmts=(1, 2), big=50000, label="t4big"))
